@@ -304,6 +304,53 @@ def py_reply(line):
         return str(dim if dim >= 0 else nb + dim + 1)
     if cmd == "divf":
         return C.rat_str(1 / Fraction(ts[0]))
+    if cmd == "permidx":       # specified permutes of rsample: in = (1, …, d, 0), out = (d, 0, …, d-1)
+        d = int(ts[0])
+        o = [int(x) for x in ts[2:]]
+        outs = []
+        for perm in (list(range(1, d + 1)) + [0], [d] + list(range(d))):
+            inp = [0] * (d + 1)
+            for j, a in enumerate(perm):
+                inp[a] = o[j]
+            outs.append(" ".join(map(str, inp)))
+        return f"in: {outs[0]} | out: {outs[1]}"
+    if cmd == "initshape":     # specification: both stored with the broadcast batch shape
+        bar = ts.index("|")
+        ms, cs = [int(x) for x in ts[1:bar]], [int(x) for x in ts[bar + 2:]]
+        try:
+            bs = list(_np().broadcast_shapes(tuple(ms[:-1]), tuple(cs[:-2])))
+        except ValueError:
+            return "reject"
+        f = lambda l: " ".join(map(str, l))
+        return f"loc: {f(bs + ms[-1:])} | cov: {f(bs + cs[-2:])} | batch: {f(bs)}"
+    if cmd == "gell":          # RECORDED behaviour (known finding getitem:multiple-ellipsis), not the specification
+        S, p = _take(ts, 0)
+        n = len(S)
+        l, d, ne = int(ts[p + 1]), int(ts[p + 2]), int(ts[p + 3])
+        x = parse_idx_tokens(ts[p + 5:])[0]
+        if l > d and ne > 0:
+            if l - ne < d:
+                return "pre=reject"
+            l = l - ne
+        if l > d:
+            return f"pre={l};br=tooMany;nosel"
+        sel = py_index([n], [x])
+        if sel is None:
+            return f"pre={l};br=ellipsis;nosel"
+        cs = [sel[0][1]] if sel[0][0] == "D" else list(sel[0][1])
+        rs = list(range(n))
+        return (f"pre={l};br=ellipsis;rows={' '.join(map(str, rs))};cols={' '.join(map(str, cs))};"
+                + _show([[S[a][b] for b in cs] for a in rs]))
+    if cmd == "gpair":         # RECORDED behaviour (known finding getitem:advanced-batch-event-pairing)
+        n, b = int(ts[0]), int(ts[1])
+        p, Ss = 3, []
+        for _ in range(b):
+            S, p = _take(ts, p)
+            Ss.append(S)
+        k = int(ts[p + 1])
+        bs = [int(x) for x in ts[p + 2:p + 2 + k]]
+        es = [int(x) for x in ts[p + 4 + k:p + 4 + 2 * k]]
+        return _show([[Ss[bs[i]][es[i]][es[j]] for j in range(k)] for i in range(k)])
     return "bad-request"
 
 
@@ -609,6 +656,22 @@ def run_getitem(case):
             gline = (f"gcov {C.mat_tokens(S[0])} | 2 2 0 | I {idx_p[1]}", cov_ref[:1, :1])
     if gline is not None:
         lines.append(gline[0])
+    # the two recorded defects: what the GENERATED branch reads must be what the implementation returns (so that the
+    # theorems gen_getitem_*_except_known are about the behaviour that is reported as a known finding)
+    kline = None
+    if toks is not None and real_err is None and "mu_build" not in case:
+        if (len(shape) == 3 and len(idx_p) == 3 and idx_p[0] is Ellipsis and idx_p[2] is Ellipsis
+                and isinstance(idx_p[1], (slice, list)) and rc.ndim == 4):
+            b0 = (0,) * (len(shape) - 1)
+            kline = (f"gell {C.mat_tokens(S[b0])} | 3 {len(shape)} 2 | {idx_tokens((idx_p[1],))}", rc[b0])
+        elif (len(shape) == 2 and len(idx_p) == 2 and all(isinstance(i, list) and i for i in idx_p)
+              and len(idx_p[0]) == len(idx_p[1]) and all(0 <= j < shape[0] for j in idx_p[0])
+              and all(0 <= j < shape[1] for j in idx_p[1]) and rc.ndim == 2):
+            kline = (f"gpair {shape[1]} {shape[0]} | " + " ".join(C.mat_tokens(S[b]) for b in range(shape[0]))
+                     + f" | {len(idx_p[0])} " + " ".join(map(str, idx_p[0])) + f" | {len(idx_p[1])} " + " ".join(map(str, idx_p[1])),
+                     rc)
+    if kline is not None:
+        lines.append(kline[0])
     _full = _expand_ellipsis(list(idx_p), len(shape))
     paired = (_full is not None and isinstance(_full[-1], list) and any(isinstance(i, list) for i in _full[:-1])) or \
         (_full is None and sum(1 for i in idx_p if isinstance(i, list)) >= 2)
@@ -640,15 +703,26 @@ def run_getitem(case):
             return res
         res["status"] = "compared"
         where = f"{rep} batch={tuple(shape[:-1])} n={shape[-1]} d{idx_show(idx)}"
+        if kline is not None:   # recorded-defect patterns: generated reading == observed covariance, exactly
+            rp = replies[-1].split(";")[-1]
+            try:
+                rows_, _ = C.parse_mat(rp.split(), 0)
+                G = np.array(C.fmat_to_float(rows_))
+                okk = G.shape == kline[1].shape and _allclose(kline[1], G)   # dense: torch rebuilds Sigma from scale_tril
+            except Exception:
+                okk = False
+            if not okk:
+                res["broke"].append(("generated-getitem-known", f"{where}: the generated branch reads `{replies[-1][:160]}`, the "
+                                     f"implementation returns {kline[1].tolist()} (a recorded defect changed: retire / revise the known finding)"))
         if gline is not None:   # the regenerated dispatch + covariance selection must denote the marginal
-            parts = replies[-1].split(";")
+            parts = replies[(-2 if kline is not None else -1)].split(";")
             ok = len(parts) == 4
             if ok:
                 rows_, _ = C.parse_mat(parts[3].split(), 0)
                 G = np.array(C.fmat_to_float(rows_)).reshape(gline[1].shape) if len(rows_) * (len(rows_[0]) if rows_ else 0) == gline[1].size else None
                 ok = G is not None and bool(np.all(G == gline[1]))
             if not ok:
-                res["broke"].append(("generated-getitem", f"{where}: generated dispatch/selection gives `{replies[-1][:160]}`, "
+                res["broke"].append(("generated-getitem", f"{where}: generated dispatch/selection gives `{replies[(-2 if kline is not None else -1)][:160]}`, "
                                      f"marginal covariance is {gline[1].tolist()}"))
         multi = sum(1 for i in idx_p if i is Ellipsis) > 1
         key_sfx = "multiple-ellipsis" if multi else ("advanced-batch-event-pairing" if paired else
@@ -1496,6 +1570,13 @@ def model_lines(ctx, rng):
             lines.append(f"unsq {nb} {dim}")
     for c in ("2", "-4", "1/3", "-7/8", "1/1048576"):
         lines.append(f"divf {c}")
+    for d in range(1, 6):                      # multi-indices read through the generated permutes, ranks 1..5 (0..4 batch dims)
+        for _ in range(6):
+            lines.append(f"permidx {d} | " + " ".join(str(rng.randint(0, 9)) for _ in range(d + 1)))
+    for mb in INIT_BATCHES + [(4, 1, 2, 3), (5,)]:
+        for cb in INIT_BATCHES + [(3, 1), (1, 1, 1)]:
+            lines.append("initshape " + " ".join(map(str, [len(mb) + 1] + list(mb) + [3])) + " | "
+                         + " ".join(map(str, [len(cb) + 2] + list(cb) + [3, 3])))
     for _ in range(40):
         n = rng.randint(1, 5)
         fl = rng.choice(["1/10000000000", "1/1000", "1/2", "0"])
@@ -1529,6 +1610,8 @@ def _desc(case):
         a = case.get("arg")
         return (f"op {case['op']} {case['rep']} mean{np.array(case['mu']).shape} cov{np.array(case['S']).shape} "
                 f"arg={a if not isinstance(a, dict) else (a['rep'], np.array(a['mu']).shape)}")
+    if k == "init":
+        return f"init {case['rep']} mean{np.array(case['mu']).shape} cov{np.array(case['S']).shape}"
     if k == "hist":
         return (f"hist {case['rep']} mean{np.array(case['mu']).shape} before={case['pre']} "
                 f"ops={[(o[0], o[1] if not isinstance(o[1], dict) else (o[1]['rep'],)) for o in case['ops']]}")
@@ -1576,6 +1659,7 @@ def all_cases(ctx):
     cases += moments_cases(ctx, ctx.rng("moments"))
     cases += hist_cases(ctx, ctx.rng("hist"))
     cases += warm_cases(ctx, ctx.rng("warm"))
+    cases += init_cases(ctx, ctx.rng("init"))
     cases += getitem_var_cases(ctx, ctx.rng("getitem-var"))
     return cases
 
@@ -2228,10 +2312,11 @@ def _warm_getitem_indices(batch, n, rng, deep):
 
 
 def warm_cases(ctx, rng, deep=False):
-    """quick: full index-form list (one rotating batch prefix + the ellipsis form per event form) under the ALL-caches warm-up
-    for `dense` and `lazy`, samples for the other representations and for single warm-ups; thorough: the full prefix x event
-    product for `dense` / `lazy`, the list for the others, every single warm-up sampled; deep (started by `search` /
-    `correspondence` when a proof or the translation of `__getitem__` broke): the full product for every representation."""
+    """quick: full index-form list (two batch prefixes + the ellipsis form per event form) under the ALL-caches warm-up for
+    `dense` and `lazy`, samples for the other representations and for single warm-ups; thorough: additionally every single
+    warm-up (sampled index forms), 4 batch shapes, the full prefix x event product for `dense` / `lazy` with <= 1 batch
+    dimension; deep (started by `search` / `correspondence` when a proof or the translation of `__getitem__` broke): the
+    full prefix x event product for `dense` / `lazy` up to 2 batch dimensions, 25 index forms per single warm-up."""
     quick = ctx.tier == "quick" and not deep
     out = []
     ALL = list(WARMERS)
@@ -2256,15 +2341,15 @@ def warm_cases(ctx, rng, deep=False):
                 pres = [ALL] + singles
             for pi, pre in enumerate(pres):
                 n = rng.choice((4, 5))
-                full_product = (deep and len(b) <= 2) or (not quick and pi == 0 and heavy and len(b) <= 2)
+                full_product = pi == 0 and heavy and len(b) <= 2 and (deep or (not quick and len(b) <= 1))
                 idxs = _warm_getitem_indices(b, n, rng, full_product)
-                if pi > 0 and not deep:
-                    idxs = rng.sample(idxs, min(6 if heavy else 4, len(idxs)))
+                if pi > 0:
+                    idxs = rng.sample(idxs, min((25 if heavy else 5) if deep else (6 if heavy else 4), len(idxs)))
                 elif quick and not heavy:
                     idxs = rng.sample(idxs, min(10, len(idxs)))
                 for idx in idxs:
                     out.append(dict(base(n, pre), ops=[["getitem", idx_json(idx)]]))
-                if pi > 0 and (quick or pi > 4):
+                if pi > 0 and (quick or pi > 2):
                     continue
                 neg = rng.choice([-2, -0.5, -3.0])
                 n = rng.randint(3, 4)
@@ -2280,6 +2365,101 @@ def warm_cases(ctx, rng, deep=False):
                 for ops in (derive if (heavy or not quick) else rng.sample(derive, 6)):
                     out.append(dict(base(n, pre), ops=ops))
     return out
+
+
+# =============================================================== __init__: mean / covariance batch broadcast
+
+INIT_BATCHES = [(), (1,), (2,), (3,), (1, 1), (2, 1), (1, 3), (2, 3), (1, 2, 3), (2, 1, 3), (2, 1, 1)]
+
+
+def run_init(case):
+    """The constructed object must be the batch of Gaussians N(mean[b], K[b]) over b in broadcast(mean batch, covariance
+    batch): batch_shape, the stored mean / covariance (shape AND values), variance.  Generated `__init__` shapes (driver
+    `initshape`) must be the stored shapes of the lazy branch."""
+    np = _np()
+    mu, S, A, rep = np.array(case["mu"]), np.array(case["S"]), np.array(case["A"]), case["rep"]
+    n = mu.shape[-1]
+    mb, cb = mu.shape[:-1], S.shape[:-2]
+    try:
+        full = _bshape(mb, cb)
+    except ValueError:
+        full = None
+    cls = "same" if mb == cb else ("dense-broadcast" if rep == "dense" else "lazy-broadcast")
+    where = f"{rep} mean_batch={mb} cov_batch={cb} n={n}"
+    err, out = None, {}
+    try:
+        with warnings.catch_warnings():
+            warnings.simplefilter("ignore")
+            d = make_dist(rep, mu, S, A)
+            out["batch"] = tuple(d.batch_shape)
+            out["event"] = tuple(d.event_shape)
+            out["loc_shape"] = tuple(d.loc.shape)
+            out["covar_shape"] = tuple(d._covar.shape) if rep != "dense" else None
+            out["mean"] = d.mean.detach().numpy()
+            out["lazy_cov"] = d.lazy_covariance_matrix.to_dense().detach().numpy()
+            out["cov"] = d.covariance_matrix.detach().numpy()
+            out["var"] = d.variance.detach().numpy()
+    except Exception as e:
+        err = e
+    lines = []
+    if rep != "dense":
+        f = lambda l: " ".join(map(str, [len(l)] + list(l)))
+        lines.append(f"initshape {f(mu.shape)} | {f(S.shape)}")
+
+    def judge(replies):
+        res = {"status": "compared", "fails": [], "broke": []}
+        if full is None:
+            res["status"] = "rejected" if err is not None else "compared"
+            if err is None:
+                res["fails"].append((f"init:accepted-nonbroadcast:{cls}", f"{where}: batch shapes do not broadcast, constructor returned "
+                                     f"batch_shape {out['batch']}"))
+            if replies and replies[0] != "reject":
+                res["broke"].append(("generated-init", f"{where}: generated __init__ shapes `{replies[0]}` for non-broadcastable batch shapes"))
+            return res
+        if err is not None:
+            res["status"] = f"raised:{type(err).__name__}"
+            res["fails"].append((f"init:raises:{cls}", f"{where}: constructor / accessor raises {type(err).__name__}: {str(err)[:160]}"))
+            return res
+        if replies:
+            f = lambda l: " ".join(map(str, l))
+            obs = f"loc: {f(out['loc_shape'])} | cov: {f(out['covar_shape'])} | batch: {f(out['batch'])}"
+            if replies[0].strip() != obs.strip():
+                res["broke"].append(("generated-init", f"{where}: generated __init__ gives `{replies[0]}`, the object stores `{obs}`"))
+        if out["batch"] != full or out["event"] != (n,):
+            res["fails"].append((f"init:batch-shape:{cls}", f"{where}: batch_shape {out['batch']} event_shape {out['event']}, expected "
+                                 f"{full} / {(n,)}"))
+        mu_f, S_f = np.broadcast_to(mu, full + (n,)), np.broadcast_to(S, full + (n, n))
+        if not _allclose(out["mean"], mu_f):
+            res["fails"].append((f"init:mean:{cls}", f"{where}: mean has shape {out['mean'].shape}, expected the given mean broadcast to {mu_f.shape}"))
+        for nm in ("lazy_cov", "cov"):
+            if not _allclose(out[nm], S_f):
+                res["fails"].append((f"init:covariance:{cls}", f"{where}: {nm} has shape {out[nm].shape}, expected the given covariance "
+                                     f"broadcast to {S_f.shape} (one covariance per batch member)"))
+                break
+        if rep != "dense" and (out["loc_shape"] != full + (n,) or out["covar_shape"] != full + (n, n)):
+            res["fails"].append((f"init:stored-shape:{cls}", f"{where}: stored loc {out['loc_shape']} / covariance operator {out['covar_shape']}, "
+                                 f"expected {full + (n,)} / {full + (n, n)}"))
+        if not _allclose(out["var"], np.diagonal(S_f, axis1=-2, axis2=-1)):
+            res["fails"].append((f"init:variance:{cls}", f"{where}: variance (shape {out['var'].shape}) != diag of the broadcast covariance"))
+        return res
+    return lines, judge
+
+
+def init_cases(ctx, rng):
+    quick = ctx.tier == "quick"
+    out = []
+    pairs = [(a, b) for a in INIT_BATCHES for b in INIT_BATCHES]
+    for rep in REPS_ALL:
+        ps = pairs if (not quick or rep in ("dense", "lazy")) else rng.sample(pairs, 30)
+        for mb, cb in ps:
+            n = rng.randint(1, 3)
+            mu, _, _ = gen_params(rng, mb, n)
+            _, A, S = gen_params(rng, cb, n, kind=_kind(rep))
+            out.append({"kind": "init", "rep": rep, "mu": mu, "S": S, "A": A})
+    return out
+
+
+RUNNERS["init"] = run_init
 
 
 # =============================================================== getitem on distributions with tiny / zero / user-floored variances
